@@ -276,6 +276,12 @@ def random_bytes(rng, big=False):
 
 
 def random_text(rng):
+    if rng.random() < 0.15:
+        # UTF-8 length next to 253 (character count far below it for the multi-byte characters)
+        ch = rng.choice(['a', 'é', '€', '𝄞'])
+        w = len(ch.encode('utf-8'))
+        target = rng.choice([250, 251, 252, 253, 254, 255, 256])
+        return (ch * (target // w) + 'a' * (target % w)).encode('utf-8')
     return ''.join(rng.choice(TEXT_BITS) for _ in range(rng.randint(0, 6))).encode('utf-8')
 
 
